@@ -18,10 +18,16 @@ for diff in "$DIR"/*.diff "$DIR"/*/patch.diff; do
   if ! git -C "$wt" apply "$diff"; then echo "$name apply-failed" >> "$OUT"; git -C /repo worktree remove --force "$wt"; continue; fi
   tests=$(cd "$wt" && timeout 900 /venv/bin/python -m pytest -q -p no:cacheprovider -x 2>&1 | tail -1)
   export VERIF_REPO=$wt VERIF_EVIDENCE_DIR=/tmp/mut_ev_$name VERIF_REPLAY_DIR=/tmp/mut_rp_$name
-  t0=$(date +%s)
-  (cd "$HERE" && timeout 1200 ./check c11 --tier quick --no-selftest > /tmp/mut_c11_$name.log 2>&1); c11=$?
+  # ONLY_RELEVANT=1: run only the check of the property the change is aimed at (c11_*, m*, r* -> C11; c15_*, n* -> C15)
+  run11=1; run15=1
+  if [ "${ONLY_RELEVANT:-0}" = 1 ]; then
+    case "$name" in c11*|m*|r*) run15=0;; c15*|n*) run11=0;; esac
+  fi
+  : > /tmp/mut_c11_$name.log; : > /tmp/mut_c15_$name.log
+  t0=$(date +%s); c11=skipped; c15=skipped
+  [ $run11 = 1 ] && { (cd "$HERE" && timeout 1800 ./check c11 --tier quick --no-selftest > /tmp/mut_c11_$name.log 2>&1); c11=$?; }
   t1=$(date +%s)
-  (cd "$HERE" && timeout 1200 ./check c15 --tier quick --no-selftest > /tmp/mut_c15_$name.log 2>&1); c15=$?
+  [ $run15 = 1 ] && { (cd "$HERE" && timeout 1800 ./check c15 --tier quick --no-selftest > /tmp/mut_c15_$name.log 2>&1); c15=$?; }
   t2=$(date +%s)
   unset VERIF_REPO VERIF_EVIDENCE_DIR VERIF_REPLAY_DIR
   v11=$(grep -c '^VIOLATION' /tmp/mut_c11_$name.log); v15=$(grep -c '^VIOLATION' /tmp/mut_c15_$name.log)
